@@ -39,6 +39,25 @@ func (d damage) String() string {
 	}
 }
 
+// class names the damage for violation signatures: alterations of a manifest byte are one class per
+// offset (every value that breaks the same token behaves alike), everything else is its own class.
+func (d damage) class() string {
+	short := func(p string) string { return strings.TrimPrefix(p, backupDir+"/") }
+	switch d.kind {
+	case "byte":
+		if strings.HasSuffix(d.file, ".json") {
+			return fmt.Sprintf("%s[%d]", short(d.file), d.off)
+		}
+		return fmt.Sprintf("%s[%d]=0x%02x", short(d.file), d.off, d.val)
+	case "trunc":
+		return fmt.Sprintf("truncate %s to %d", short(d.file), d.off)
+	case "remove":
+		return "remove " + short(d.file)
+	default:
+		return fmt.Sprintf("truncate %s to %d and %s to %d", short(d.file), d.off, short(d.file2), d.off2)
+	}
+}
+
 func (d damage) apply(fs *vos.MemFS) {
 	switch d.kind {
 	case "byte":
@@ -222,8 +241,16 @@ func runC11(jc *JobCtx, ci int, conc int, file string, structural bool) {
 		k, m, site, steps := loadOutcome(&c, fs, conc, false)
 		rep.Executions++
 		rep.Transitions += int64(steps)
-		if os.Getenv("C11DEBUG") != "" {
-			fmt.Fprintf(os.Stderr, "%s => %s %s\n", d, k, m)
+		if dbg := os.Getenv("C11DEBUG"); dbg != "" {
+			if f, err := os.OpenFile(dbg, os.O_WRONLY|os.O_CREATE|os.O_APPEND, 0644); err == nil {
+				fmt.Fprintf(f, "%s %s => %s %s\n", jc.Job.Name, d, k, m)
+				f.Close()
+			}
+		}
+		if k == "restore-silent" {
+			// one signature per damage class and restored content, so that a listed finding names
+			// exactly the damages it covers
+			site = fmt.Sprintf("LoadFromDisk: %s => %s", d.class(), m[strings.Index(m, "holds ")+6:strings.Index(m, " instead")])
 		}
 		if k != "" {
 			rep.violate(Viol{Kind: k, Msg: fmt.Sprintf("backup %q (%s), damage: %s, load concurrency %d: %s", c.name, fsSummary(img), d, conc, m), Site: site, Job: jc.Job.Name, Choices: []int{i}})
